@@ -5,6 +5,8 @@ P=/verif/seeded/$NAME/patch.diff
 cd /repo && git diff --quiet || { echo "/repo has local changes"; exit 2; }
 git -C /repo apply $P || exit 3
 cd /verif
+# the evidence files must describe the unchanged tree: keep them aside while the change is applied
+rm -rf .build/evidence_backup; cp -r evidence .build/evidence_backup
 for c in "$@"; do
   out=$(bin/check $c quick 2>&1); rc=$?
   nv=$(echo "$out" | grep -c '^VIOLATION')
@@ -13,3 +15,4 @@ for c in "$@"; do
   echo "$out" > /verif/.build/seedlog_${NAME}_$c.log
 done
 git -C /repo checkout -- .
+cp .build/evidence_backup/*.json evidence/ 2>/dev/null
